@@ -345,6 +345,9 @@ func (c *Client) httpPoll(ctx context.Context, url string) {
 // rather than using the cached value,
 // bypassing the caching mechanism.
 func (c *Client) Latest(ctx context.Context, url string, n uint64) (uint64, []byte, error) {
+	// get() replaces once under the head cache's lock when the
+	// poller has failed; starting the poller takes the same lock
+	c.lcache.Lock()
 	c.lcache.once.Do(func() {
 		switch {
 		case len(c.wsurl) > 0:
@@ -355,6 +358,7 @@ func (c *Client) Latest(ctx context.Context, url string, n uint64) (uint64, []by
 			go c.httpPoll(context.Background(), url)
 		}
 	})
+	c.lcache.Unlock()
 	if n, h, ok := c.lcache.get(ctx, n); ok {
 		return n, h, nil
 	}
